@@ -162,10 +162,19 @@ CLAIMED = {
             'Decides that the 11 binary operators are ordered the same way by printer priority and grammar level, that equal '
             'priorities share a left-recursive level, and that Op.__str__ brackets equal-priority right operands (E1, E2).',
             'value preservation of calculation rules and normalisation is numerical and not decided'),
+    'C20': ('stratification of the concrete syntax of conditions, agreement of the printer\'s brackets with it, shape of the VC generator',
+            'both-side-recursion rule over the BNF of the Lark grammar (lark used as grammar loader only), order-isomorphism and recursion-side '
+            'check between the printer\'s priority table / bracket conditions and the grammar ladder, dispatch-exhaustiveness and argument-flow '
+            'rules over compute_wp and the VC listing',
+            'Decides that no operator production of imperative/parser2.py is open on both sides at one level (P1), that the priorities and '
+            'bracket conditions of Op.__str__ are order-isomorphic to the grammar levels and bracket the operand on the side the grammar does '
+            'not recurse on (P2), and that compute_wp and the listing of verification conditions handle all five command kinds, list every '
+            'chain of conditions, compute text and HOL form from one expression, and pass the conditions as the assignment, sequence, '
+            'conditional and while rules say (P3).',
+            'soundness of the conditions with respect to execution and agreement of symbolic evaluation with an interpreter are semantic and not decided'),
 }
 
 NOT_APPLICABLE = {
-    'C20': 'soundness of wp/VC generation is semantic; the print/re-parse clause cannot be decided from tables because imperative/parser2.py has an ambiguous expression grammar resolved by LALR conflict defaults and Op.__str__ is code, not a table',
 }
 
 PENDING = {}  # properties whose checks are still being built would be listed here as not applicable
